@@ -112,20 +112,21 @@ class RunResult:
         self.stderr = ""
 
 
-def write_instance(path, prog, Gfull, ntd, nte, nthreads, tq_ms, ts, expected, rank_table):
+def write_instance(path, prog, Gfull, ntd, nte, nthreads, tq_ms, ts, expected, rank_table, erank_table=()):
     vals = [nthreads, tq_ms, ts, ntd, nte, len(prog.globals)] + [Gfull[g] for g in prog.globals]
     vals += [len(expected)] + list(expected)
     vals += [len(rank_table)] + list(rank_table)
+    vals += [len(erank_table)] + list(erank_table)
     with open(path, "w") as f:
         f.write(" ".join(str(v) for v in vals) + "\n")
 
 
-def run_instance(exe, workdir, tag, prog, Gfull, ntd, nte, cfg, expected, rank_table, timeout=60):
+def run_instance(exe, workdir, tag, prog, Gfull, ntd, nte, cfg, expected, rank_table, timeout=60, erank_table=()):
     """cfg: dict(threads, sched, ranks, ts, tq_ms, env extra)."""
     inst = os.path.join(workdir, tag + ".inst")
     logp = os.path.join(workdir, tag + ".log")
     P = cfg.get("ranks", 1)
-    write_instance(inst, prog, Gfull, ntd, nte, cfg["threads"], cfg.get("tq_ms", 5000), cfg.get("ts", 4), expected, rank_table)
+    write_instance(inst, prog, Gfull, ntd, nte, cfg["threads"], cfg.get("tq_ms", 5000), cfg.get("ts", 4), expected, rank_table, erank_table)
     env = dict(os.environ)
     env.update(core.MPI_ENV)
     env["PARSEC_MCA_mca_sched"] = cfg.get("sched", "lfq")
